@@ -157,6 +157,8 @@ class Evaluator:
     def mark_skipped(self, e):
         for tag in tags_in(e):
             self.skipped_tags.add(tag)
+        if not (e[0] == 'lit'):
+            self.skipped_interesting = getattr(self, 'skipped_interesting', 0) + 1
 
     def unary(self, op, v):
         if op == '!':
@@ -253,6 +255,8 @@ class Evaluator:
             for it in items:
                 if self.truth(body(margs[0], it)):
                     n += 1
+                    if n == 2 and getattr(self, 'exists_one_early', False):
+                        return ('b', False)
             return ('b', n == 1)
         if kind == 'map':
             out = []
@@ -285,8 +289,7 @@ class Evaluator:
             self.log.append(["fail", to_json(tag)])
             raise CelError('function', 'fail')
         if name in self.host:
-            args = [self.ev(a, env) for a in arg_exprs]
-            return self.host[name](self, recv, args)
+            return self.host[name](self, recv, arg_exprs, env)
         args = [self.ev(a, env) for a in arg_exprs]
         full = ([recv] if recv is not None else []) + args
         return builtin(name, recv is not None, full)
